@@ -41,6 +41,12 @@ CHECKS = {
  "C16": dict(cat="exploration", technique="deterministic simulation: server and client as simulated threads on real kernel sockets with simulator-managed ppoll blocking and simulated clock, short-transfer/EINTR injection, position-dependent byte-stream oracle",
    text="Server and client run as simulated threads (coroutines, seeded scheduler) on real unix and loopback-TCP sockets; the only blocking call of tiny-std's socket code, ppoll, is served by the simulator (zero-timeout real poll, park, re-poll when the peer acts, timeouts on the simulated clock, EINTR after part of the wait). Generated payloads (0..500 KB, thorough 4 MB) with small socket buffers so that buffers fill, generated write chunk / read buffer sequences, either side writing or closing first; timeouts 1 us..10 s with a peer acting before/after/never; try_* calls must not enter ppoll; SCM_RIGHTS with 0-16 descriptors and control buffers smaller/equal/larger than needed, flush against a PROT_NONE page in a forked receiver. Oracles: first wrong byte, totals, deadlock detector, Timeout only after the simulated limit, exact descriptor identity. Sampling, not proof.",
    note="Kernel sockets are real: unix-socket runs replay exactly; loopback TCP is delivered asynchronously (softirq, Nagle/delayed-ACK timers), so TCP runs are identified by scenario and outcome only and a state with parked pollers is called a deadlock only after 400 ms of real patience; TCP receive buffers are kept >=128 KB (zero-window probing runs on real kernel timers).", ref="DESIGN.md §3 C16"),
+ "C05": dict(cat="exploration", engine="ptsim", technique="deterministic simulation of the real no-libc threaded binary under a ptrace scheduler (one runnable thread at a time, futex/clear-tid/sleep emulated, single-step preemption, clone/mmap fault injection)",
+   text="A real no-libc probe (tiny-std executable+threaded, its own checking allocator) runs under a ptrace tracer that keeps exactly one thread running, takes every scheduling, futex-wake and fault decision from the decision stream, emulates futex wait/wake, the clear-tid wake-up and sleeps, preempts with single-step bursts inside the thread epilogue and the join/drop windows, and can fail the stack mmap and clone. Scenarios: 1-6 threads per batch, result types of 7 size/alignment classes, returning or panicking closures, handles joined now/later or dropped now/later. Oracles: exactly one START per successful spawn, join returns Some(tagged value)/None correctly and never before the closure's last record or the thread's exit, failed thread creation is reported as Err, no state with all threads parked, no crash. Sampling, not proof.",
+   note="x86_64 only; spurious futex wake-ups are not injected (outside C05's quantifier, reported as NOTE only); the futex and sleep models are the tracer's; a run in which the wall-clock watchdog fired is discarded, never judged.", ref="DESIGN.md §2.3, §3 C05; crates/ptsim/NOTES.md"),
+ "C06": dict(cat="exploration", engine="ptsim", technique="deterministic simulation of the real no-libc threaded binary under a ptrace scheduler, with stack-mapping ledger in the tracer and heap ledger/poisoned quarantine in the probe's allocator",
+   text="Same engine and scenarios as C05 (no fault injection, more batches, long histories of hundreds of threads per process). Oracles: every thread's stack mapping is unmapped exactly once, completely, by the thread running on it as its last call before exit, and no stack stays mapped at a batch end (tracer ledger cross-checked with /proc/pid/maps); the probe allocator's live-allocation ledger is back at the baseline at every batch end except one closure box per panicked thread, no double or foreign free; freed join state is poisoned and quarantined so that a late write (the kernel's clear-tid 0 or either party) is detected; no crash under churn (debug build with allocator self-checks in a quarter of the runs). Sampling, not proof.",
+   note="x86_64 only; the probe's allocator (counting/poisoning wrapper over Mutex<Dlmalloc>) is part of the trusted base.", ref="DESIGN.md §2.3, §3 C06; crates/ptsim/NOTES.md"),
 }
 NA = {
  "C07": "pure function of the initial process image (argv/env/aux on the start-up stack): no schedule, clock, fault or second party to simulate",
@@ -82,7 +88,8 @@ def main():
               "baseline_off_cmd":"cd /repo && cargo test --workspace --no-fail-fast --offline",
               "source_commits":hooks_commits,"add_only":True},
      "engines":[
-       {"name":"simk","path":"crates/simk","serves_properties":sorted(CHECKS.keys()),"kind_free_text":"in-process deterministic simulator: sc syscall shim + atomics seam, coroutine scheduler, futex/clock/memory/descriptor models, fault injector, one decision stream per run (replay = decision list)"},
+       {"name":"ptsim","path":"crates/ptsim","serves_properties":["C05","C06"],"kind_free_text":"ptrace-based deterministic simulator for real no-libc multi-threaded binaries: one runnable thread at a time, futex/clear-tid/sleep emulated in the tracer, single-step preemption, syscall fault injection, decisions from the same decision stream (replay = decision list)"},
+       {"name":"simk","path":"crates/simk","serves_properties":sorted(k for k in CHECKS.keys() if k not in ("C05","C06")),"kind_free_text":"in-process deterministic simulator: sc syscall shim + atomics seam, coroutine scheduler, futex/clock/memory/descriptor models, fault injector, one decision stream per run (replay = decision list)"},
      ],
      "checks":checks,
      "not_applicable":na,
